@@ -126,6 +126,8 @@ def one(ctx, rng, xr, ops, names):
     if "site" in lnames and ("lat" in lnames or "lon" in lnames):
         lnames = [n for n in lnames if n != "site"]
     lsizes = [int(rng.integers(1, ctx.n(4, 7))) for _ in lnames]
+    if len(lsizes) >= 2 and rng.random() < 0.4:
+        lsizes = [max(2, lsizes[0])] * len(lsizes)
     npos = int(np.prod(lsizes)) if lsizes else 1
     # neighbouring spectra deliberately very different (peak bins, amplitudes, one all-zero)
     specs = []
@@ -148,6 +150,10 @@ def one(ctx, rng, xr, ops, names):
     if len(allpos) > 64:
         allpos = [allpos[i] for i in rng.choice(len(allpos), 64, replace=False)]
     chosen = list(rng.choice(names, size=ctx.n(6, 10), replace=False))
+    if any(tuple(aux[k].dims) != tuple(lead) for k in ("wspd", "wdir", "dpt")):
+        # forcing stored in another dimension order / with fewer dimensions than the spectra: make sure an operation
+        # that consumes it is driven (pairing must be by dimension name, not by axis position)
+        chosen.append(str(rng.choice(["ptm1", "ptm2", "ptm4"])))
     ds = x.to_dataset(name="efth")
     for name in chosen:
         op = ops[name]
